@@ -255,9 +255,20 @@ def run(ctx: Ctx) -> int:
         hist = [rep["history"]]
     else:
         hist = [gen_history(ctx.rng("h", i), maxlen, inject=not ctx.quick) for i in range(nh)]
-    reqs = [{"fn": "vf.props.c07:worker", "args": {"history": h, "probes": plist, "out": str(ctx.scratch / f"hist{i}")}} for i, h in enumerate(hist)]
+    # Every (history, probe) pair runs in a process of its own: a probe translation is itself a query that resets
+    # registries and (for a new executor) reinstalls backend defaults, so probes sharing a process would mask or cause leaks.
+    npick = ctx.pick(7, 14)
+    reqs, owners = [], []
+    for i, h in enumerate(hist):
+        R = ctx.rng("probes", i)
+        chosen = plist if ctx.replay else R.sample(plist, npick)
+        if ctx.replay:
+            chosen = [p for p in plist if f"{p[0]}|{p[1]}|{int(p[3])}" == rep["probe"]]
+        for j, p in enumerate(chosen):
+            reqs.append({"fn": "vf.props.c07:worker", "args": {"history": h, "probes": [p], "out": str(ctx.scratch / f"hist{i}_{j}")}})
+            owners.append(h)
     res = run_batch(reqs, ctx.scratch, timeout=300)
-    for h, r in zip(hist, res):
+    for h, r in zip(owners, res):
         if "probes" not in r:
             ctx.count("harness_errors")
             ctx.notes.append(str(r)[:300])
@@ -277,7 +288,6 @@ def run(ctx: Ctx) -> int:
                     ctx.known_hits[known] += 1
                     continue
                 ctx.violation({"history": h, "probe": key}, f"probe {key} after a history of {len(h)} steps differs from the pristine process: {diff} | registry monitor: {leak[:3]}")
-                break
             else:
                 shape = tuple((s["outcome"], s["reuse"], tuple(sorted(s["md_kinds"]))) for s in h)
                 ctx.seen((stable(shape), key), len(h) >= 2 or any(s["outcome"] != "ok" for s in h))
